@@ -108,6 +108,69 @@ def check_index(c):
     return {"nontrivial": n >= 3, "labels": [f"n={n}", "type=" + c["type"]]}
 
 
+@st.composite
+def index_histories(draw, tier):
+    """histories of enumeration requests on ONE state object: many distinct sizes (more than any small cache would hold), repeats of
+    earlier sizes, refused sizes (caught) followed by single-vector requests of that size, defaults of a register beyond the limit"""
+    own = draw(st.sampled_from([2, 3, 5, 22, 24]))
+    ops = []
+    for _ in range(draw(st.integers(3, 30))):
+        k = draw(st.sampled_from(["space", "space", "vector", "vector", "refused", "default_space", "default_vector", "sweep"]))
+        if k == "space":
+            ops.append(["space", draw(st.integers(1, 9))])
+        elif k == "vector":
+            m = draw(st.integers(1, 30))
+            ops.append(["vector", draw(st.integers(0, 2 ** m - 1)), m])
+        elif k == "refused":
+            ops.append(["refused", draw(st.integers(21, 30))])
+        elif k == "default_vector":
+            ops.append(["default_vector", draw(st.integers(0, 2 ** own - 1))])
+        elif k == "sweep":
+            lo, hi = sorted([draw(st.integers(1, 9)), draw(st.integers(1, 9))])
+            seq = list(range(lo, hi + 1))
+            for m in (seq if draw(st.booleans()) else seq[::-1]):
+                ops.append(["space", m])
+        else:
+            ops.append([k])
+    return {"own": own, "type": draw(st.sampled_from(["positive", "complex", "density"])), "ops": ops}
+
+
+def check_history(c):
+    from qucumber.nn_states import ComplexWaveFunction, DensityMatrix, PositiveWaveFunction
+    own = c["own"]
+    state = {"positive": lambda: PositiveWaveFunction(own, 1, gpu=False), "complex": lambda: ComplexWaveFunction(own, 1, gpu=False),
+             "density": lambda: DensityMatrix(own, 1, 1, gpu=False)}[c["type"]]()
+    ms = state.max_size
+    sizes, refused = set(), 0
+    for i, op in enumerate(c["ops"]):
+        what = f"step {i} {op} of a history of enumeration requests on one object"
+        if op[0] == "space" or (op[0] == "default_space" and own <= ms):
+            m = op[1] if op[0] == "space" else own
+            sp = state.generate_hilbert_space(m) if op[0] == "space" else state.generate_hilbert_space()
+            ks = torch.arange(2 ** m)
+            want = torch.stack([(ks >> (m - 1 - j)) & 1 for j in range(m)], dim=1).double()
+            require(sp.shape == want.shape and torch.equal(sp, want), "history:space-row", f"{what}: the returned space is not the big-endian enumeration of size {m}")
+            sizes.add(m)
+        elif op[0] in ("refused", "default_space"):
+            m = op[1] if op[0] == "refused" else own
+            if op[0] == "refused":
+                expect_raises(ValueError, lambda: state.generate_hilbert_space(m), "history:max_size:not-refused", f"{what}: size {m} beyond max_size {ms}")
+            else:
+                expect_raises(ValueError, lambda: state.generate_hilbert_space(), "history:max_size:not-refused", f"{what}: default size {m} beyond max_size {ms}")
+            refused += 1
+            # after the refusal (caught): single basis vectors of that size are still available and right
+            for k_ in (1, 2 ** m - 2, (2 ** m) // 3):
+                v = state.subspace_vector(k_, m)
+                require(v.tolist() == expansion(k_, m), "history:subspace_vector:after-refusal", f"{what}: subspace_vector({k_}, {m}) after the refused enumeration = {v.tolist()}")
+        elif op[0] == "vector":
+            v = state.subspace_vector(op[1], op[2])
+            require(v.tolist() == expansion(op[1], op[2]), "history:subspace_vector", f"{what}: got {v.tolist()}, the big-endian expansion is {expansion(op[1], op[2])}")
+        elif op[0] == "default_vector":
+            v = state.subspace_vector(op[1])
+            require(v.tolist() == expansion(op[1], own), "history:subspace_vector:default-size", f"{what}: got {v.tolist()}, the expansion over the model's {own} sites is {expansion(op[1], own)}")
+    return {"nontrivial": len(sizes) >= 7 or refused > 0, "labels": [f"distinct_sizes={min(len(sizes), 9)}", f"own={own}"] + (["refusal"] if refused else [])}
+
+
 def index_cases(tier):
     out = []
     hi = 14 if tier == "quick" else 18
@@ -337,6 +400,7 @@ def check_files(c, reuse_dir=None):
 
 SUBCHECKS = [
     Sub("index", check_index, enumerate=index_cases),
+    Sub("history", check_history, strategy=lambda tier: index_histories(tier), quick=640, thorough=16000),
     Sub("positions", check_positions, strategy=lambda tier: tagged(tier), quick=400, thorough=8000),
     Sub("files", check_files, strategy=lambda tier: files(tier), quick=320, thorough=8000),
 ]
